@@ -39,6 +39,7 @@ BASES: Dict[str, Tuple[str, ...]] = {
     "class:Mixin": (OBJ,),
     "class:X": ("class:Mixin", "class:Other"),   # multiple inheritance, different orders
     "class:Y": ("class:Other", "class:Mixin"),
+    "class:Z": ("class:Mixin", "class:Other"),
     "class:Solo": (OBJ,),
 }
 
@@ -199,6 +200,10 @@ class RewriterScenario:
                 st.pending = "AttributeError"
                 return U("generic alias has no " + attr)
         if is_class(obj):
+            if attr == "__module__":
+                return K("builtins" if obj.name.startswith("builtin:") else "pkg.mod")  # type: ignore[union-attr]
+            if attr in ("__qualname__", "__name__"):
+                return K(obj.name.split(":")[-1])  # type: ignore[union-attr]
             if attr == "__bases__":
                 return K(tuple(S(b) for b in BASES[obj.name]))  # type: ignore[union-attr]
             if attr == "__mro__":
@@ -212,9 +217,16 @@ class RewriterScenario:
                 return S("origin:" + obj.name[len("mod:typing."):])
             if attr == "__module__":
                 return K("typing")
-            if attr in ("__args__", "__bases__", "__mro__"):
+            if attr in ("__args__", "__bases__", "__mro__", "__qualname__"):
                 st.pending = "AttributeError"
                 return U("bare alias has no " + attr)
+        if obj == ANY and attr == "__module__":
+            return K("typing")
+        if obj == ANY and attr in ("__qualname__", "__name__"):
+            return K("Any")
+        if isinstance(obj, R) and obj.kind == "generic" and attr in ("__qualname__",):
+            st.pending = "AttributeError"
+            return U("generic alias has no __qualname__")
         if obj == ANY and attr in ("__args__", "__origin__", "__bases__", "__mro__"):
             st.pending = "AttributeError"
             return U("Any has no " + attr)
@@ -256,6 +268,8 @@ class RewriterScenario:
             if isinstance(v, U) and len(args) > 2:
                 return args[2]
             return v
+        if d == "repr" and len(args) == 1:
+            return K(show(args[0]))
         if d == "len" and len(args) == 1 and isinstance(args[0], K) and isinstance(args[0].v, tuple):
             return K(len(args[0].v))
         if d in ("all", "any") and len(args) == 1:
@@ -340,6 +354,17 @@ class RewriterScenario:
         return o.freeze(o.term[1])
 
 
+def canon_key(t: Any) -> str:
+    """Text of an abstract type with the members of every Union (at any depth) sorted: equality up to the
+    order of union members."""
+    if isinstance(t, R) and t.kind == "generic" and isinstance(t.fields["args"], K) and isinstance(t.fields["args"].v, tuple):
+        parts = [canon_key(a) for a in t.fields["args"].v]
+        if t.fields["origin"] == K("Union"):
+            parts = sorted(parts)
+        return f"{t.fields['origin'].v}[{', '.join(parts)}]"
+    return show(t)
+
+
 def show(t: Any) -> str:
     if isinstance(t, S):
         return t.name.split(":")[-1].split(".")[-1]
@@ -359,6 +384,7 @@ def show(t: Any) -> str:
 # The abstract type universe the rules quantify over
 # ---------------------------------------------------------------------------
 INT, STR, FLT, BYT, BOOL = (cls("builtin:int"), cls("builtin:str"), cls("builtin:float"), cls("builtin:bytes"), cls("builtin:bool"))
+Z_ = cls("class:Z")
 BASE, MID, L1, L2, OTH, X_, Y_, SOLO = (cls("class:Base"), cls("class:Mid"), cls("class:Leaf1"), cls("class:Leaf2"), cls("class:Other"),
                                         cls("class:X"), cls("class:Y"), cls("class:Solo"))
 
